@@ -226,3 +226,46 @@ def advance_tied (L, g, node, new):
       dd = dict((k_, sgn * v_) for k_, v_ in d.items())
       if dd == {new: 1, L.cur: -1, L.wlen: -1}: return True
   return False
+
+
+def buffer_length_uses (repo, modnames=('openflow.libopenflow_01', 'openflow.nicira')):
+  """Decoders are handed the connection's whole receive buffer, which may hold further messages behind the one being decoded.
+  The buffer's own length may therefore *guard* a read (a comparison), but never size one: [(func, node, text)] for every use
+  of len(<buffer parameter>) - directly or through a local computed from it - outside a comparison, in the unpack / unpack_new /
+  _unpack_body methods of the codec modules.  Also returns the number of decoders scanned."""
+  out = []; n = 0
+  for mn in modnames:
+    try: m = repo.mod(mn)
+    except Exception: continue
+    for c in m.classes.values():
+      for f in c.methods.values():
+        if f.name not in ('unpack', 'unpack_new', '_unpack_body', '_unpack_header'): continue
+        ps = [p for p in f.params if p in ('raw', 'data', 'b', 'buf', 'packed', 'binaryString')]
+        if not ps: continue
+        n += 1
+        buf = ps[0]
+        parents = {}
+        for x in ast.walk(f.node):
+          for ch in ast.iter_child_nodes(x): parents[ch] = x
+        def in_compare (x):
+          while x in parents:
+            x = parents[x]
+            if isinstance(x, ast.Compare): return True
+            if isinstance(x, ast.stmt): return False
+          return False
+        def is_len (x): return isinstance(x, ast.Call) and call_name(x) == 'len' and len(x.args) == 1 and isinstance(x.args[0], ast.Name) and x.args[0].id == buf
+        tainted = set()
+        for st in ast.walk(f.node):
+          if isinstance(st, ast.Assign) and len(st.targets) == 1 and isinstance(st.targets[0], ast.Name) and any(is_len(y) for y in ast.walk(st.value)):
+            tainted.add(st.targets[0].id)
+        for x in ast.walk(f.node):
+          if is_len(x) and not in_compare(x):
+            st = x
+            while st in parents and not isinstance(st, ast.stmt): st = parents[st]
+            if isinstance(st, ast.Assign) and len(st.targets) == 1 and isinstance(st.targets[0], ast.Name) and st.targets[0].id in tainted: continue
+            out.append((f, x, norm(st)[:70]))
+          if isinstance(x, ast.Name) and x.id in tainted and isinstance(x.ctx, ast.Load) and not in_compare(x):
+            st = x
+            while st in parents and not isinstance(st, ast.stmt): st = parents[st]
+            out.append((f, x, norm(st)[:70]))
+  return out, n
